@@ -2,14 +2,17 @@
     A program is compiled by the harness (harness/blocks.go) to BPMN: BSeq = sequence flow, BPar =
     parallel fork/join, BIf = exclusive split on a boolean variable with a default flow and a merge,
     BLoop = merge; body; exclusive split back to the merge while the variable is true, BSub = embedded
-    sub-process with one start and one end event.  The state of a run is the tree of places where
+    sub-process with one start and one end event, BIncl = inclusive fork/join, BCond = a task with
+    conditional outgoing flows.  The state of a run is the tree of places where
     tokens wait for a task answer. *)
 From Coq Require Export List Arith Bool Lia.
 Export ListNotations.
 
 Inductive blk :=
 | BSkip | BTask (t : nat) | BSeq (a b : blk) | BPar (a b : blk) | BIf (v : nat) (a b : blk)
-| BLoop (v : nat) (body : blk) | BSub (b : blk).
+| BLoop (v : nat) (body : blk) | BSub (b : blk)
+| BIncl (v1 v2 : nat) (a b d : blk)     (* inclusive fork: a if v1, b if v2, both if both, d (default) if neither; inclusive join *)
+| BCond (t : nat) (v : nat) (a b : blk). (* task t whose outgoing flows are conditional: to a if v, to b if not v; exclusive merge *)
 
 Definition env := list bool.
 Definition getv (e : env) (v : nat) : bool := nth v e false.
@@ -48,6 +51,11 @@ Fixpoint start (e : env) (b : blk) : run :=
   | BLoop v body => let r := start e body in
                     if fin r then (if getv e v then RSpin else RDone) else RLoop r v body
   | BSub b => RSub (start e b)
+  | BIncl v1 v2 a b d =>
+      if getv e v1 || getv e v2
+      then RPar (if getv e v1 then start e a else RDone) (if getv e v2 then start e b else RDone)
+      else start e d
+  | BCond t v a b => RSeq (RTask t) (BIf v a b)
   end.
 
 (* the token waiting at task t is answered; e is the environment after the answer's writes *)
@@ -96,6 +104,8 @@ Fixpoint flatten (b : blk) : blk :=
   | BIf v a b => BIf v (flatten a) (flatten b)
   | BLoop v body => BLoop v (flatten body)
   | BSub b => flatten b
+  | BIncl v1 v2 a b d => BIncl v1 v2 (flatten a) (flatten b) (flatten d)
+  | BCond t v a b => BCond t v (flatten a) (flatten b)
   | _ => b
   end.
 Fixpoint flatR (r : run) : run :=
